@@ -52,12 +52,12 @@ LEVEL_TEXT = ('Exhaustive exploration of encode/decode histories (json.dumps wit
               'variants and nested species/reactions/references; class, constructor attributes, every evaluable '
               'getter, re-encoding fixpoint, dictionary immutability and repeatability checked on every transition; '
               'complete up to the stated depth.')
-LEVEL_NOTE = ('Attribute values come from finite menus; depth 3 (quick) / 4 (thorough); getters on a 2-point (quick) '
+LEVEL_NOTE = ('Attribute values come from finite menus; depth 3 (quick) / 5 (thorough); getters on a 2-point (quick) '
               'or 5-point (thorough) (T,P) lattice with scalar arguments only.')
 TECHNIQUE = 'explicit-state exploration of operation histories on the implementation, constructed-object oracle'
 
 OPS = ['json', 'dict']
-DEPTH = {'quick': 3, 'thorough': 4}
+DEPTH = {'quick': 3, 'thorough': 5}
 LATTICE = {'quick': [(300.0, 0.5), (900.0, 2.0)],
            'thorough': [(300.0, 0.5), (900.0, 2.0), (300.0, 2.0), (900.0, 0.5), (1200.0, 1.0)]}
 N_SHARDS = {'quick': 32, 'thorough': 64}
@@ -94,13 +94,15 @@ SPEC = {
                                   'imag_ignored': dict(vib_wavenumbers=[-250.5, 1650.2, 3935.9]),
                                   'imag_subst': dict(vib_wavenumbers=[-250.5, 1650.2],
                                                      imaginary_substitute=50.0),
-                                  'subst_only': dict(imaginary_substitute=25.0)}),
+                                  'subst_only': dict(imaginary_substitute=25.0),
+                                  'ints': dict(vib_wavenumbers=[3825, 1650, 3936])}),
     'QRRHOVib': dict(cls='pmutt.statmech.vib:QRRHOVib',
                      base=dict(vib_wavenumbers=[95.5, 1650.2, 3935.9]),
                      variants={'one': dict(vib_wavenumbers=[60.25]), 'Bav': dict(Bav=2.5e-44), 'v0': dict(v0=150.0),
                                'alpha': dict(alpha=2),
                                'imag_subst': dict(vib_wavenumbers=[-250.5, 1650.2], imaginary_substitute=50.0),
-                               'nparray': dict(vib_wavenumbers=NP([95.5, 1650.2]))}),
+                               'nparray': dict(vib_wavenumbers=NP([95.5, 1650.2])),
+                               'np_ints': dict(vib_wavenumbers=NP([95, 1650]))}),
     'EinsteinVib': dict(cls='pmutt.statmech.vib:EinsteinVib', base=dict(einstein_temperature=300.0),
                         variants={'u': dict(interaction_energy=-0.25), 'theta': dict(einstein_temperature=85.5),
                                   'theta_int': dict(einstein_temperature=450)}),
@@ -114,7 +116,8 @@ SPEC = {
                                  'monatomic': dict(symmetrynumber=1, rot_temperatures=None, geometry='monatomic'),
                                  'monatomic_empty': dict(symmetrynumber=1, rot_temperatures=[],
                                                          geometry='monatomic'),
-                                 'nparray': dict(rot_temperatures=NP([39.4, 20.9, 13.4]))}),
+                                 'nparray': dict(rot_temperatures=NP([39.4, 20.9, 13.4])),
+                                 'np_ints': dict(rot_temperatures=NP([39, 21, 13]))}),
     'GroundStateElec': dict(cls='pmutt.statmech.elec:GroundStateElec',
                             base=dict(potentialenergy=-14.2209, spin=0.0),
                             variants={'radical': dict(spin=0.5), 'triplet': dict(spin=1.0),
@@ -184,10 +187,12 @@ SPEC = {
     'SingleNasa9': dict(cls='pmutt.empirical.nasa:SingleNasa9',
                         base=dict(T_low=200.0, T_high=1000.0, a=NP(A9)),
                         variants={'high': dict(T_low=1000.0, T_high=6000.0, a=NP(A9B)),
+                                  'top': dict(T_low=6000.0, T_high=20000.0, a=NP([v * 1.5 for v in A9])),
                                   'T_int': dict(T_low=200, T_high=1000)}),
     'Nasa9': dict(cls='pmutt.empirical.nasa:Nasa9',
                   base=dict(name='H2', nasas=[R('SingleNasa9')], phase='G', elements={'H': 2}),
                   variants={'two_seg': dict(nasas=[R('SingleNasa9'), R('SingleNasa9+high')]),
+                            'three_seg': dict(nasas=[R('SingleNasa9'), R('SingleNasa9+high'), R('SingleNasa9+top')]),
                             'surf': dict(name='H(S)', phase='S', elements={'H': 1}, n_sites=1),
                             'phase_none': dict(phase=None), 'elements_none': dict(elements=None),
                             'smiles': dict(smiles='[HH]'), 'notes_str': dict(notes='fit to NIST'),
@@ -202,6 +207,7 @@ SPEC = {
                               'smiles': dict(smiles='[Ar]'), 'notes_str': dict(notes='Chase 1998'),
                               'notes_dict': dict(notes={'source': 'Chase', 'year': 1998}),
                               'model': dict(model=R('StatMech+as_H2')), 'a_list': dict(a=SHO),
+                              'np_ints': dict(a=NP([21, 3, -1, 0, 0, -6, 180, 0])),
                               'misc_cov': dict(name='AR(S)', phase='S',
                                                misc_models=[R('PiecewiseCovEffect+name')])}),
     'Reference': dict(cls='pmutt.empirical.references:Reference',
@@ -301,12 +307,12 @@ PLANNED_TAGS = (['roundtrip:%s' % k for k in CLASSES] + ['getters:%s' % k for k 
 
 # minimum number of distinct getters that must have been *evaluated and compared* on some instance
 # of the class for the tag getters:<class> to be emitted (measured on the repaired tree, see notes)
-MIN_GETTERS = {'FreeTrans': 8, 'HarmonicVib': 8, 'QRRHOVib': 8, 'EinsteinVib': 8, 'DebyeVib': 8,
-               'RigidRotor': 8, 'GroundStateElec': 8, 'EmptyNucl': 8, 'EmptyMode': 8, 'ConstantMode': 8,
-               'GasPressureAdj': 6, 'IdealGasEOS': 4, 'vanDerWaalsEOS': 4, 'CatSite': 0,
-               'PiecewiseCovEffect': 8, 'StatMech': 12, 'Nasa': 8, 'SingleNasa9': 3, 'Nasa9': 8, 'Shomate': 8,
-               'Reference': 1, 'References': 4, 'BEP': 6, 'Reaction': 30, 'ChemkinReaction': 30,
-               'SurfaceReaction': 30, 'LSR': 8, 'Reactions': 1, 'PhaseDiagram': 2}
+MIN_GETTERS = {'BEP': 10, 'CatSite': 0, 'ChemkinReaction': 51, 'ConstantMode': 10, 'DebyeVib': 11, 'EinsteinVib': 11,
+               'EmptyMode': 10, 'EmptyNucl': 10, 'FreeTrans': 11, 'GasPressureAdj': 10, 'GroundStateElec': 10,
+               'HarmonicVib': 11, 'IdealGasEOS': 4, 'LSR': 10, 'Nasa': 17, 'Nasa9': 16, 'PhaseDiagram': 4,
+               'PiecewiseCovEffect': 10, 'QRRHOVib': 10, 'Reaction': 51, 'Reactions': 2, 'Reference': 15,
+               'References': 12, 'RigidRotor': 10, 'Shomate': 16, 'SingleNasa9': 10, 'StatMech': 19,
+               'SurfaceReaction': 50, 'vanDerWaalsEOS': 8}
 
 
 def bounds(tier):
@@ -332,19 +338,20 @@ def instances(tier):
 
 
 # relative cost of one instance (getter-heavy classes are slow): used only to balance shards
-_COST = {'Reaction': 30, 'ChemkinReaction': 30, 'SurfaceReaction': 30, 'Reactions': 12, 'PhaseDiagram': 30, 'LSR': 30,
-         'StatMech': 6, 'Nasa': 3, 'Nasa9': 3, 'Shomate': 3, 'Reference': 3, 'References': 3, 'DebyeVib': 6}
+_COST = {'Reaction': 39, 'SurfaceReaction': 32, 'ChemkinReaction': 22, 'PhaseDiagram': 26, 'LSR': 23, 'BEP': 20,
+         'StatMech': 14, 'Reactions': 12, 'Nasa': 9, 'Nasa9': 10, 'Shomate': 8, 'Reference': 9, 'References': 10,
+         'QRRHOVib': 5, 'CatSite': 1}
 
 
 def shards(tier):
     n = N_SHARDS[tier]
-    inst = sorted(instances(tier), key=lambda r: (-_COST.get(r.split('+')[0], 1), r))
+    inst = sorted(instances(tier), key=lambda r: (-_COST.get(r.split('+')[0], 3), r))
     bins = [[] for _ in range(n)]
     load = [0] * n
     for r in inst:
         i = load.index(min(load))
         bins[i].append(r)
-        load[i] += _COST.get(r.split('+')[0], 1)
+        load[i] += _COST.get(r.split('+')[0], 3)
     return [dict(recipes=b, depth=DEPTH[tier], tier=tier) for b in bins if b]
 
 
@@ -758,7 +765,7 @@ def check_intact(ctx, before, after, sig, case):
         if (s['cls'], s['key']) in seen:
             continue
         seen.add((s['cls'], s['key']))
-        ctx.equal('decoding leaves the dictionary it was given intact', _brief(y), _brief(x), s, case)
+        ctx.fail('decoding leaves the dictionary it was given intact', s, case, _brief(y), _brief(x))
     return False
 
 
@@ -847,13 +854,13 @@ def compare(orig, new, plan, ctx, op, case, plain):
             s = dict(cls=x.split('.')[-1], op=op, got='dict')
             if ('c', s['cls']) not in seen:
                 seen.add(('c', s['cls']))
-                ctx.equal('decodes to the same class', '<dict>', x, s, case)
+                ctx.fail('decodes to the same class', s, case, '<dict>', x)
             continue
         s = dict(cls=c or cname, op=op, attr=str(k))
         if (s['cls'], s['attr']) in seen:
             continue
         seen.add((s['cls'], s['attr']))
-        ctx.equal('carries the same attributes as the original', _brief(y), _brief(x), s, case)
+        ctx.fail('carries the same attributes as the original', s, case, _brief(y), _brief(x))
     if diffs:
         healthy = False
     else:
@@ -875,7 +882,7 @@ def compare(orig, new, plan, ctx, op, case, plain):
             sk_o, nums_o = _split(canon(val))
             sk_e, nums_e = _split(exp)
             if sk_o != sk_e:
-                ctx.equal('returns the same value from every getter', _brief(sk_o), _brief(sk_e), gsig, case)
+                ctx.fail('returns the same value from every getter', gsig, case, _brief(sk_o), _brief(sk_e))
                 healthy = False
             elif nums_e:
                 if not ctx.close('returns the same value from every getter', nums_o, nums_e, gsig, case,
@@ -903,7 +910,7 @@ def compare(orig, new, plan, ctx, op, case, plain):
         if (s['cls'], s['key']) in seen:
             continue
         seen.add((s['cls'], s['key']))
-        ctx.equal('encode(decode(encode(o))) == encode(o)', _brief(y), _brief(x), s, case)
+        ctx.fail('encode(decode(encode(o))) == encode(o)', s, case, _brief(y), _brief(x))
     if diffs:
         healthy = False
     else:
